@@ -969,7 +969,7 @@ func (e *Env) evalCall(x *ast.CallExpr) sval {
 					return sval{v: Leaf(strLen(a.v.T)), t: intT}.asInt(fc)
 				}
 			case *types.Map:
-				return sval{v: Leaf(Select(e.st.mlen, a.v.T)), t: intT}.asInt(fc)
+				return sval{v: Leaf(Ite(Eq(a.v.T, IntLit(0)), IntLit(0), Select(e.st.mlen, a.v.T))), t: intT}.asInt(fc) // len(nil map) == 0
 			}
 			specPanic("len of %s", a.t)
 		case "forall", "exists":
@@ -1082,6 +1082,47 @@ func (e *Env) evalCall(x *ast.CallExpr) sval {
 			body := n.eval(x.Args[2])
 			vis := Select(e.st.ghost[gname], sv)
 			return sval{v: Leaf(Term{fmt.Sprintf("(forall ((%s Int)) (! %s :pattern (%s)))", sv.S, Implies(vis, body.v.T).S, vis.S), SBool}), t: boolT}
+		case "mapkeys":
+			// mapkeys(m, k, body): body holds for every key k present in map m (scalar keys)
+			if len(x.Args) != 3 {
+				specPanic("mapkeys(m, k, body)")
+			}
+			m := e.eval(x.Args[0])
+			mt, ok := m.t.Underlying().(*types.Map)
+			kid, ok2 := x.Args[1].(*ast.Ident)
+			if !ok || !ok2 || m.v.K != KLeaf {
+				specPanic("mapkeys: bad arguments")
+			}
+			ksh := shapeOf(mt.Key(), fc.mode)
+			if ksh.K != KLeaf {
+				specPanic("mapkeys: only scalar key types")
+			}
+			*e.qn++
+			wasPosK := e.evalPos
+			sv := Term{fmt.Sprintf("slot!q%d", *e.qn), SInt}
+			skK := e.skolemize && wasPosK && e.skRoot != nil
+			if skK {
+				saveBlk := fc.curBlk
+				fc.curBlk = -1
+				sv = fc.freshConst("slot!sk", SInt)
+				fc.curBlk = saveBlk
+			}
+			name := "slot_" + sortTag(ksh.Sort)
+			fc.eng.needSlot(name, []Term{{"k", ksh.Sort}})
+			key := mk(ksh.Sort, name+"_inv0", sv)
+			n := e.sub()
+			n.binds[kid.Name] = binding{Leaf(key), mt.Key()}
+			body := n.eval(x.Args[2])
+			if body.v.K != KLeaf || body.v.T.Sort != SBool {
+				specPanic("mapkeys body not boolean")
+			}
+			indom := Select(Select(e.st.mdom, m.v.T), sv)
+			// a slot in the domain is the slot of its own key
+			self := Eq(mk(SInt, name, key), sv)
+			if skK {
+				return sval{v: Leaf(Implies(indom, And(self, body.v.T))), t: boolT}
+			}
+			return sval{v: Leaf(Term{fmt.Sprintf("(forall ((%s Int)) (! %s :pattern (%s)))", sv.S, Implies(indom, And(self, body.v.T)).S, indom.S), SBool}), t: boolT}
 		case "mapall":
 			// mapall(m, v, body): body holds for every value v stored in map m
 			if len(x.Args) != 3 {
@@ -1138,6 +1179,14 @@ func (e *Env) evalCall(x *ast.CallExpr) sval {
 				specPanic("bytes() of non-slice")
 			}
 			return sval{v: Leaf(bytesOf(e.st, a.v)), t: specBytesType}
+		case "ult":
+			// unsigned comparison of two byte arrays read as little-endian integers (element 0 is
+			// the least significant byte)
+			a, b := e.eval(x.Args[0]), e.eval(x.Args[1])
+			if a.v.K != KLeaf || b.v.K != KLeaf || !a.v.T.Sort.IsBV() || a.v.T.Sort != b.v.T.Sort {
+				specPanic("ult of values that are not bit-vectors of one width")
+			}
+			return sval{v: Leaf(mk(SBool, "bvult", a.v.T, b.v.T)), t: boolT}
 		case "md5":
 			a := e.eval(x.Args[0])
 			return sval{v: Leaf(mk(SBV(128), "md5", a.v.T)), t: md5Type}
@@ -1204,9 +1253,9 @@ func (e *Env) evalCall(x *ast.CallExpr) sval {
 				specPanic("lastcall: unsupported result shape")
 			}
 			return sval{v: val, t: ft}
-		case "pathIsAbs", "pathClean", "pathDir", "pathBase", "pathExt", "fpIsAbs":
+		case "pathIsAbs", "pathClean", "pathDir", "pathBase", "pathExt", "fpIsAbs", "pathAbs":
 			a := e.eval(x.Args[0])
-			fn := map[string]string{"pathIsAbs": "p_isabs", "pathClean": "p_clean", "pathDir": "fp_dir", "pathBase": "fp_base", "pathExt": "p_ext", "fpIsAbs": "fp_isabs"}[id.Name]
+			fn := map[string]string{"pathIsAbs": "p_isabs", "pathClean": "p_clean", "pathDir": "fp_dir", "pathBase": "fp_base", "pathExt": "p_ext", "fpIsAbs": "fp_isabs", "pathAbs": "fp_abs"}[id.Name]
 			if id.Name == "pathIsAbs" || id.Name == "fpIsAbs" {
 				return sval{v: Leaf(mk(SBool, fn, a.v.T)), t: boolT}
 			}
